@@ -30,7 +30,15 @@ RULE = (
     "all subscripts in generated order / arbitrary sample multisets with weights and correction range, values / "
     "subscripts / sample weights in integer dtypes, lambda_check default/True/False, weighted models with the check "
     "on; oracle = per-sample loop on den(model) incl. weights; gradients w.r.t. the unit-weight factor matrices the "
-    "model has after the call.  Non-trivial: N>=3, R>=2 and non-constant data (tensor cells); data value not 0 and "
+    "model has after the call.  Model classes: generic entries (exact zeros included), entries next to zero (1e-290 / "
+    "1e-200 / 1e-12: not zeros), identity factors exactly and perturbed by 1e-9..1e-4, columns scaled by exactly "
+    "balanced powers of two (2^60 .. 2^480 in one mode, the inverse in another), model weights 1 +- 1e-9..1e-5; weight "
+    "arrays also mostly missing (0, 1, 2, ... observed entries, at most a quarter) and 1 +- 1e-9..1e-5; data / model "
+    "values down to 1e-12 / 1e-15 in the handle cells.  evaluate: what it returns is overwritten (operands must not "
+    "change), then data (item assignment) and / or model (ktensor.update) are edited in place and the same objects are "
+    "evaluated again (objective and gradients of the operands as they stand).  large cells: a few problems per run "
+    "with 60000 cells, 1e4..3e4 non-zero data entries (sparse or dense), mostly-missing weights; estimate on 1e4..3e4 "
+    "samples (block edges 10000 / 16384 +-1), expanded deterministically from a seed, same bodies.  Non-trivial: N>=3, R>=2 and non-constant data (tensor cells); data value not 0 and "
     "model value not 0 (handle cells)."
 )
 ASSUMPTIONS = [
@@ -51,6 +59,11 @@ ASSUMPTIONS = [
     "beta loss: b outside [-0.05,0.05] and [0.95,1.05] (the loss divides by b and b-1)",
     "an integer dtype is used only when it holds every data value exactly; the derivative property is judged on the "
     "float64 image and 'independent of data dtype' is a clause of its own (16 eps x term scale); float32 left out",
+    "extreme magnitudes are generated so that no product of factor entries is a subnormal number or depends on the "
+    "order of the factors (one tiny magnitude class per model; power-of-two column scalings balanced per component; "
+    "never a huge entry next to tiny ones); a model with entries below 1e-150 is not sent through normalize() (the "
+    "square underflows: column 2-norms are not meaningful) and its directional derivative is not recomputed by "
+    "complex step (1e-30 x 1e-290 underflows in my oracle)",
     "setup's domain check (valid_binary / valid_nonneg look at the stored values of a sparse tensor) is not asserted "
     "for sparse data that stores explicit zeros: whether a stored 0 passes it is outside C12",
 ]
@@ -63,6 +76,8 @@ def _nb_case_has_x_not_1(case):
     coded gradient (r+1)/(1+m) coincides with the true (r+x)/(1+m))."""
     if case.get("loss") != "negative_binomial":
         return False
+    if case.get("large") and "fill" in case:  # evaluate/large: the data the compact case stands for
+        case = H.expand_large(case)
     if "vals" in case:  # estimate/samples
         crng = case.get("crng")
         if crng:  # the correction evaluates the gradient at data 0
@@ -245,6 +260,10 @@ def _evaluate_case(draw, tier, holders):
     r = c["rank"]
     dv = st.one_of(st.integers(-2, 2).map(float), H.sfloats(0.01, 1.0))
     c["dirs"] = [draw(st.lists(st.lists(dv, min_size=r, max_size=r), min_size=n, max_size=n)) for n in c["shape"]]
+    # afterwards the operands are changed in place and the evaluation is repeated on the same objects
+    c["edit"] = draw(st.sampled_from([None, None, None, "data", "model", "both"]))
+    c["edit_pos"] = draw(st.integers(0, 10**6))
+    c["edit_val"] = draw(st.sampled_from([0.5, 1.0, 2.0, 3.0]))
     return c
 
 
@@ -255,6 +274,9 @@ def _labels(ctx, case, X):
     ctx.nt = len(shape) >= 3 and case["rank"] >= 2 and not const
     if any(0.0 in row for f in case["factors"] for row in f):
         ctx.label("factor-has-zero")
+    ctx.label(H.factor_class(case))
+    if case.get("mscale") and any(e for _, _, e in case["mscale"]):
+        ctx.label("columns-scaled-2^" + str(max(e for _, _, e in case["mscale"])))
 
 
 def _sum_tol(w, vals, tol_entry):
@@ -279,7 +301,8 @@ def _grad_refs(A, Yg, tolY, w, N, R):
 
 
 def _model_labels(ctx, case, model, lam):
-    ctx.label("model-" + case.get("mprov", "ctor"), "model-weights-unit" if np.all(lam == 1) else "model-weights-nonunit")
+    ctx.label("model-" + case.get("mprov", "ctor"), "model-weights-unit" if np.all(lam == 1) else (
+        "model-weights-near-one" if np.all(np.abs(lam - 1) <= 1e-4) else "model-weights-nonunit"))
     if any(not f.flags["F_CONTIGUOUS"] for f in model.factor_matrices if f.ndim == 2 and min(f.shape) > 1):
         ctx.label("model-has-C-ordered-factor")
 
@@ -298,6 +321,18 @@ def _data_labels(ctx, data):
 
 
 def _evaluate_body(ctx, case):
+    try:
+        _evaluate_main(ctx, case)
+    finally:
+        ops = ctx.notes.pop("operands", None)
+    if ops is not None:
+        _edit_phase(ctx, case, *ops)
+
+
+def _evaluate_main(ctx, case):
+    case = H.expand_large(case)
+    if case.get("large"):
+        ctx.label("large-60000-cells", f"fill={case['fill']}", f"weights-density={case['wdensity'] if case['wkind'].startswith('sparse') else '-'}")
     name, p = case["loss"], case["param"]
     fh, gh, lb = _setup(ctx, name, p)
     model = H.build_model(case)
@@ -344,6 +379,15 @@ def _evaluate_body(ctx, case):
     with ctx.sut("fg.evaluate-function-only"):
         F1 = fg.evaluate(model, data, None if w_arr is None else w_arr.copy(order="K"), fh, None)
     ctx.check(isinstance(F1, (float, np.floating)) and F1 == F, "function-only-call-agrees")
+    # --- what evaluate handed back is the caller's: writing into it changes neither operand nor a later evaluation
+    G_kept = [g.copy() for g in G]
+    for g in G:
+        g[...] = 7.25
+    lam3, A3 = H.read_model(model)
+    ctx.check(all(np.array_equal(a, b) for a, b in zip(A3, A)) and np.array_equal(lam3, lam) and np.array_equal(ref.den(data), data_before),
+              "writing-into-returned-gradients-leaves-operands")
+    G = G_kept
+    ctx.notes["operands"] = (model, data, w_arr, w, fh, gh, name, p, unit)  # (for the edit phase, run last)
     if not unit:
         # (the factor-matrix gradients are specified for unit-weight models only, see ASSUMPTIONS)
         return
@@ -353,9 +397,16 @@ def _evaluate_body(ctx, case):
         ctx.check(H.within(G[k], Gk, tk), "gradient-is-mttkrp-of-elementwise-derivative",
                   f"mode {k} of {case['shape']}: {H.worst(G[k], Gk, tk)}")
     # --- gradients = partial derivatives of the objective (recomputed from function_handle only)
-    V = [np.array(d, dtype=float).reshape(a.shape) for d, a in zip(case["dirs"], A)]
+    if any(np.any((a != 0) & (np.abs(a) < 1e-180)) for a in A):
+        # (my complex step of 1e-30 times an entry of 1e-300 underflows: the directional derivative is not recomputed
+        #  for such models; the clause above judges their gradients)
+        ctx.label("no-complex-step-for-tiny-entries")
+        V = None
+    else:
+        # directions on the scale of the columns they perturb (exact powers of two), so that the model moves by O(1)
+        V = [H.scaled_direction(np.array(d, dtype=float).reshape(a.shape), A, k) for k, (d, a) in enumerate(zip(case["dirs"], A))]
     aw = 1.0 if w is None else np.abs(w)
-    for k in range(N):
+    for k in range(N if V is not None else 0):
         Ak_dir = list(A)
         Ak_dir[k] = V[k]
         dMk = H.kruskal_c(Ak_dir)  # derivative of the model entries along V[k]
@@ -406,10 +457,68 @@ def _evaluate_body(ctx, case):
             fg_setup.setup(H.objective(name), data, p)
 
 
+def _edit_phase(ctx, case, model, data, w_arr, w, fh, gh, name, p, unit):
+    """the operands are edited in place - data by item assignment, the model by ktensor.update - and the SAME objects
+    are evaluated again: objective and gradients must be those of the operands as they stand now"""
+    edit = case.get("edit")
+    if not edit or name == "huber" or case.get("large"):  # (Huber data is tied to the model values: kink margin)
+        return
+    shape = tuple(case["shape"])
+    try:
+        if edit in ("data", "both"):
+            X0 = ref.den(data)
+            sub = tuple(int(i) for i in np.unravel_index(case["edit_pos"] % X0.size, shape, order="F"))
+            old_v = float(X0[sub])
+            new_v = 1.0 - old_v if H.LOSSES[name]["data"] == "binary" else old_v + 1.0
+            data[sub] = new_v
+            want = X0.copy()
+            want[sub] = new_v
+            if not np.array_equal(ref.den(data), want):
+                ctx.skip("item assignment did not produce the wanted data")
+        if edit in ("model", "both"):
+            lam0, A0 = H.read_model(model)
+            k = case["edit_pos"] % len(A0)
+            B = A0[k].copy()
+            i, r = (case["edit_pos"] // 7) % B.shape[0], (case["edit_pos"] // 3) % B.shape[1]
+            # (the new entry is on the scale of the column it is written into: exact power of two)
+            v = float(case["edit_val"])
+            if not any(np.any((a != 0) & (np.abs(a) < 1e-180)) for a in A0):  # (never a huge entry next to tiny ones)
+                v = float(H.scaled_direction(np.full((1, B.shape[1]), v), A0, k)[0, r])
+            B[i, r] = v if B[i, r] != v else 2.0 * v
+            model.update([k], B.flatten(order="F"))
+            lam1, A1 = H.read_model(model)
+            if not (np.array_equal(A1[k], B) and all(np.array_equal(a, b) for j, (a, b) in enumerate(zip(A1, A0)) if j != k)
+                    and np.array_equal(lam1, lam0)):
+                ctx.skip("ktensor.update did not produce the wanted model")
+    except (AssertionError, ValueError, IndexError, TypeError):  # (the editing operations are judged by other properties)
+        ctx.skip("editing operation raised")
+    ctx.label("edited-in-place-" + edit)
+    lam, A = H.read_model(model)
+    N, R = len(A), len(lam)
+    Aw = A if unit else H.absorb(lam, A)
+    M = H.kruskal_c(Aw)
+    dM = H.model_rounding(Aw) * (1 if unit else 2)
+    X = ref.den(data)
+    with ctx.sut("fg.evaluate-after-in-place-edit"):
+        out = fg.evaluate(model, data, None if w_arr is None else w_arr.copy(order="K"), fh, gh)
+    ctx.require(isinstance(out, tuple) and len(out) == 2 and isinstance(out[1], list) and len(out[1]) == N
+                and all(isinstance(g, np.ndarray) and g.shape == a.shape for g, a in zip(out[1], A)), "evaluate-returns-F-and-G")
+    F, G = out
+    pr = H.PointwiseRef(name, p, fh, gh, X, M, dM)
+    F_ref = float(np.sum(pr.f if w is None else pr.f * w))
+    tolF = _sum_tol(w, pr.f, pr.tol_f)
+    ctx.check(abs(F - F_ref) <= tolF, "objective-follows-in-place-edit", f"{edit}: {F!r} vs {F_ref!r} tol {tolF:.3g}")
+    if unit:
+        for k, (Gk, tk) in enumerate(_grad_refs(A, pr.g, pr.tol_g, w, N, R)):
+            ctx.check(H.within(G[k], Gk, tk), "gradient-follows-in-place-edit", f"{edit}, mode {k}: {H.worst(G[k], Gk, tk)}")
+
+
 cell("C12/evaluate/dense", strategy=lambda tier: _evaluate_case(tier, ("dense",)), quick=500, thorough=10000,
      shards=(2, 8))(_evaluate_body)
 cell("C12/evaluate/sparse", strategy=lambda tier: _evaluate_case(tier, ("sparse",)), quick=300, thorough=6000,
      shards=(2, 8))(_evaluate_body)
+# a few large problems per run: 60000 cells, 1e4..3e4 stored nonzeros, mostly-missing weight arrays
+cell("C12/evaluate/large", strategy=lambda tier: H.large_problem(), quick=3, thorough=30, shards=(1, 4))(_evaluate_body)
 
 
 # --------------------------------------------------------------------------
@@ -626,6 +735,7 @@ def _estimate_samples_case(draw, tier):
 @cell("C12/estimate/samples", strategy=_estimate_samples_case, quick=500, thorough=10000, shards=(2, 8))
 def estimate_samples(ctx, case):
     """arbitrary sample multisets, weights and correction range against a per-sample loop"""
+    case = H.expand_large_samples(case)
     name, p = case["loss"], case["param"]
     fh, gh, lb = _setup(ctx, name, p)
     model = H.build_model(case)
@@ -653,6 +763,9 @@ def estimate_samples(ctx, case):
               "crng-" + ("none" if crng is None else ("empty" if crng.size == 0 else "prefix")), "out-" + case["outputs"],
               f"lambda_check-{lc}")
     _model_labels(ctx, case, model, lam)
+    ctx.label(H.factor_class(case))
+    if case.get("mscale") and any(e for _, _, e in case["mscale"]):
+        ctx.label("columns-scaled-2^" + str(max(e for _, _, e in case["mscale"])))
     if ns and len({tuple(s) for s in case["subs"]}) < ns:
         ctx.label("repeated-subscripts")
     ctx.nt = N >= 3 and R >= 2 and ns >= 2 and len(set(case["vals"] or [0, 1])) >= 2
@@ -720,10 +833,11 @@ def estimate_samples(ctx, case):
             Z = np.prod(np.stack(others, axis=0), axis=0) if ns else np.zeros((0, R))
             Gk = np.zeros(A[k].shape)
             Tk = np.zeros(A[k].shape)
-            for i in range(ns):  # per-sample accumulation: my loop, no sparse matrix
-                Gk[isubs[i, k], :] += wts[i] * y[i] * Z[i]
-                Tk[isubs[i, k], :] += wts[i] * (ty[i] + slack * 64 * (ns + N) * EPS * ay[i]) * np.abs(Z[i])
+            if ns:  # per-sample accumulation in sample order (unbuffered, repeats add up): no sparse matrix
+                np.add.at(Gk, isubs[:, k], (wts * y)[:, None] * Z)
+                np.add.at(Tk, isubs[:, k], (wts * (ty + slack * 64 * (ns + N) * EPS * ay))[:, None] * np.abs(Z))
             ctx.check(H.within(Ge[k], Gk, Tk + 1e-300), "estimate-gradient-is-weighted-sample-sum",
                       f"mode {k} of {shape}: {H.worst(Ge[k], Gk, Tk)}")
 
 
+cell("C12/estimate/large", strategy=lambda tier: H.large_samples(), quick=3, thorough=30, shards=(1, 4))(estimate_samples)
